@@ -546,6 +546,11 @@ pub fn merge(left: TE, right: TE, parent_tv: TypeVariable, state: &mut TypeCheck
         (_, TE::Any) => Merge::expression(left),
         (TE::Any, _) => Merge::expression(right),
 
+        // A packed encoding with no spans doesn't add information either, so whatever it meets
+        // stays as it is
+        (TE::Packed { types, .. }, _) if types.is_empty() => Merge::expression(right),
+        (_, TE::Packed { types, .. }) if types.is_empty() => Merge::expression(left),
+
         // Nothing else can combine and be valid, so we return a typing conflict
         _ => Merge::expression(TE::conflict(left, right, "Incompatible inferences")),
     }
